@@ -330,6 +330,10 @@ impl TheDrawFont {
                 None => char_lookup_table.extend(u16::to_le_bytes(0xFFFF)),
             }
         }
+        // offsets and the block size are 16 bit values, 0xFFFF marks an undefined glyph
+        if font_data.len() > 0xFFFF {
+            return Err(TdfError::DataOverflow(font_data.len()).into());
+        }
         result.extend(u16::to_le_bytes(font_data.len() as u16));
         result.extend(char_lookup_table);
         result.extend(font_data);
